@@ -30,6 +30,13 @@ Proof.
   unfold C01_Spec.domain_holds in H. cbn in H. discriminate H.
 Qed.
 
+(* C02's probe_ok contains C01's wf_packet, hence C11's alphabet premise *)
+Lemma probe_name_ok : forall pk wan, probe_ok pk wan = true -> name_ok (bytes (p_domain pk)) = true.
+Proof.
+  intros pk wan H. rewrite <- c01_alphabet_name_ok. unfold probe_ok in H. apply andb_true_iff in H as [H _].
+  unfold wf_packet in H. repeat (apply andb_true_iff in H as [H _]). exact H.
+Qed.
+
 (* 1. THE DESTINATION IS KNOWN TO THE CACHE under the packet's domain *)
 Theorem Link_kernel_end_to_end :
   forall (p : program) (b : builder) (prev : kmaps) (alloc : N) (km : kmaps)
@@ -39,9 +46,10 @@ Theorem Link_kernel_end_to_end :
     (* the real domain matcher, built from the program's domain sets *)
     kw_nonempty (c01_sets p) = true -> sets_size_ok (c01_sets p) -> sets_ok rx_ok (c01_sets p) = true ->
     c11_build rx_ok (c01_sets p) = Some m -> c01_idx_ok p = true ->
-    (* the packet *)
+    (* the packet: C02's quantifier (value ranges, raw domain over the host-name alphabet, a LAN probe carries no
+       process name); a domain in any letter case / with a trailing dot, but not the root name *)
     probe_ok pk wan = true ->
-    p_domain pk <> ""%string -> name_ok (bytes (p_domain pk)) = true -> normalized (bytes (p_domain pk)) ->
+    p_domain pk <> ""%string -> p_domain pk <> "."%string ->
     c01_regex_oracles_agree p rx pk ->
     (* the DNS cache history: some live entry lists the destination, and every live entry that lists it carries
        the matcher's bitmap of the packet's domain (the kernel sees the OR over those entries) *)
@@ -53,7 +61,8 @@ Theorem Link_kernel_end_to_end :
     kernel_decides_table prev (b_rules b) (b_tries b) alloc (tracker_domain_map h) pk wan
     = Ok (Some (dns_adjust (p_dport pk) (decide p pk))).
 Proof.
-  intros p b prev alloc km rx_ok rx m h pk wan Hwf Hl Hk Hs Ho Hb Hidx Hprobe Hne Hn Hz Hrx Hex Hall Hinst.
+  intros p b prev alloc km rx_ok rx m h pk wan Hwf Hl Hk Hs Ho Hb Hidx Hprobe Hne Hz Hrx Hex Hall Hinst.
+  pose proof (probe_name_ok pk wan Hprobe) as Hn.
   pose proof (Link_lowered_msets_in_range p b Hwf Hl) as Hms.
   pose proof (Link_C02_C12.tries_ok_wf_prefix _ (Link_C01_C12.Link_lowered_tries_ok p b Hwf Hl)) as Htr.
   rewrite (Link_kernel_tracker_real_matcher prev (b_rules b) (b_tries b) alloc rx m h pk wan km Hms Htr Hprobe Hne Hex Hall Hinst).
@@ -103,7 +112,7 @@ Theorem Link_kernel_end_to_end_sized :
     kw_nonempty (c01_sets p) = true -> sets_size_ok (c01_sets p) -> sets_ok rx_ok (c01_sets p) = true ->
     c11_build rx_ok (c01_sets p) = Some m ->
     probe_ok pk wan = true ->
-    p_domain pk <> ""%string -> name_ok (bytes (p_domain pk)) = true -> normalized (bytes (p_domain pk)) ->
+    p_domain pk <> ""%string -> p_domain pk <> "."%string ->
     c01_regex_oracles_agree p rx pk ->
     (exists o e, cache_live h o = Some e /\ lists e (p_dst pk) = true) ->
     (forall o e, cache_live h o = Some e -> lists e (p_dst pk) = true ->
@@ -111,34 +120,34 @@ Theorem Link_kernel_end_to_end_sized :
     kernel_decides_table prev (b_rules b) (b_tries b) alloc (tracker_domain_map h) pk wan
     = Ok (Some (dns_adjust (p_dport pk) (decide p pk))).
 Proof.
-  intros p b prev alloc rx_ok rx m h pk wan Hwf Hl Hsz Hk Hs Ho Hb Hprobe Hne Hn Hz Hrx Hex Hall.
+  intros p b prev alloc rx_ok rx m h pk wan Hwf Hl Hsz Hk Hs Ho Hb Hprobe Hne Hz Hrx Hex Hall.
   destruct (Link_install_total p b prev alloc Hwf Hl Hsz) as [km Hinst].
   assert (Hidx : c01_idx_ok p = true).
   { apply (c01_idx_ok_of_rule_count p b Hl). unfold c11_nbits. lia. }
-  exact (Link_kernel_end_to_end p b prev alloc km rx_ok rx m h pk wan Hwf Hl Hk Hs Ho Hb Hidx Hprobe Hne Hn Hz Hrx Hex Hall Hinst).
+  exact (Link_kernel_end_to_end p b prev alloc km rx_ok rx m h pk wan Hwf Hl Hk Hs Ho Hb Hidx Hprobe Hne Hz Hrx Hex Hall Hinst).
 Qed.
 Print Assumptions Link_kernel_end_to_end_sized.
 
-(* Non-vacuity: rule `domain(suffix: b.c) -> proxy`, fallback direct; the cache holds a.b.c -> ::2 with the real
-   matcher's bitmap and another name -> ::3 with an empty bitmap.  The premises hold (the two cache premises in the
+(* Non-vacuity: rule `domain(suffix: b.c) -> proxy`, fallback direct; the packet carries the raw name "A.b.C.", the cache holds
+   it -> ::2 with the real matcher's bitmap and another name -> ::3 with an empty bitmap.  The premises hold (the two cache premises in the
    computable form of Link_C02_C10_own_domain_checked), the kernel routes a.b.c/::2 to proxy as `decide` says, and a
    packet to the unlisted ::4 to the fallback. *)
 Definition e2e_pk (dst : N) : packet :=
   {| p_src := 1; p_dst := dst; p_sport := 1000; p_dport := 443; p_l4 := TCP; p_ipver := V6;
-     p_domain := "a.b.c"; p_regex_hits := []; p_pname := repeat 0 16; p_mac := 0; p_dscp := 0 |}.
+     p_domain := "A.b.C."; p_regex_hits := []; p_pname := repeat 0 16; p_mac := 0; p_dscp := 0 |}.
 
 Example Link_kernel_end_to_end_nonvacuous :
   let p := lk_prog 2 DSuffix "b.c" in
   wf_program p = true /\ probe_ok (e2e_pk 2) false = true /\
-  name_ok (bytes "a.b.c") = true /\ normalized (bytes "a.b.c") /\
+  name_ok (bytes "A.b.C.") = true /\ normalise "A.b.C." = "a.b.c"%string /\
   decide p (e2e_pk 2) = (2, 0, false) /\ decide p (with_domain (e2e_pk 4) "") = (0, 0, false) /\
   exists b, lower_program p = Ok b /\
     (exists km, install empty_kmaps (b_rules b) (b_tries b) 0 = Ok km) /\
     exists m, c11_build lk_rx_ok (c01_sets p) = Some m /\
-      let h := [ CInsert 7 {| e_bitmap := of_words (c01_dm lk_rx m "a.b.c"); e_answers := [(false, 2)] |};
+      let h := [ CInsert 7 {| e_bitmap := of_words (c01_dm lk_rx m "A.b.C."); e_answers := [(false, 2)] |};
                  CInsert 8 {| e_bitmap := 0; e_answers := [(false, 3)] |} ] in
       negb (Nat.eqb (List.length (live_listing h 2)) 0)
-        && forallb (N.eqb (of_words (c01_dm lk_rx m "a.b.c"))) (live_listing h 2) = true /\
+        && forallb (N.eqb (of_words (c01_dm lk_rx m "A.b.C."))) (live_listing h 2) = true /\
       Nat.eqb (List.length (live_listing h 4)) 0 = true /\
       kernel_decides_table empty_kmaps (b_rules b) (b_tries b) 0 (tracker_domain_map h) (e2e_pk 2) false
       = Ok (Some (2, 0, false)) /\
@@ -158,8 +167,9 @@ Qed.
      - C02's dom_entry premise: from C10_cache_mirror (Link_C02_C10);
      - C02's bitmap_ok premise: c11_bitmap_ok;
      - C01's domain oracle premise: from C11_matcher_packed_partial (Link_C01_C11).
-   REMAINING: C11's side conditions (kw_nonempty, sets_size_ok, sets_ok, name_ok); c01_idx_ok (<= 1024 match-sets);
-     normalized domain (spec mismatch C01/C11); one regexp engine behind both oracles; probe_ok (C02's quantifier);
+   REMAINING: C11's side conditions (kw_nonempty, sets_size_ok, sets_ok; name_ok is part of probe_ok now);
+     c01_idx_ok (<= 1024 match-sets); the domain is not the root name "."; one regexp engine behind both oracles;
+     probe_ok (C02's quantifier);
      install succeeds (C02_install_total: within the 1024 limits); and the ONE genuinely open interface:
      "every live cache entry listing the destination carries the matcher's bitmap of the packet's domain" —
      C10's cache entries have no name, and no property models that the DNS controller stores
